@@ -15,7 +15,7 @@ Line protocol for C01 (stateful: a recording is loaded once, then read many time
     gains np2 <rangeMaxBits> <maxint> <nchn> <nsync>                            -> ok <float32 bit patterns>
     gains nidq <rangeMaxBits> <maxint> <mnGainBits> <maGainBits> <mn> <ma> <xa> <dw> -> ok <float64 bit patterns>
     select <nsel> <csel>                      -> the same answer format with integers: selectM on the raw array
-    read <nsel> <csel> | item1 <sel> | itemt <sel>* | rs <first> <last> <csel|none>
+    read <nsel> <csel> | item1 <sel> | itemt <nsel> <csel> | itemi <i,i,…|-> | rs <first> <last> <csel|none>
                                               -> ok s <bits> | ok v <n> <bits> | ok m <rows> <cols> <bits> | ok none | err <E>
     selectors: i:<int>  n:<int> (NumPy integer)  s:<start|_>:<stop|_>:<step|_>  l:<i,i,…|->
 Parsing and printing only; every computation is a definition of `Model/PySlice.lean` / `Model/Reader.lean`.
@@ -152,9 +152,13 @@ def step (st : St) (t : List String) : St × String :=
     match sel? a with
     | some a => if !st.ready then (st, "bad-state") else (st, showOut (getitemM castF32 scale st.toRec (.single a)))
     | _ => (st, "bad-op")
-  | "itemt" :: sels =>
-    match sels.mapM sel? with
-    | some l => if !st.ready then (st, "bad-state") else (st, showOut (getitemM castF32 scale st.toRec (.tuple l)))
+  | ["itemt", a, b] =>      -- sr[a, b]
+    match sel? a, sel? b with
+    | some a, some b => if !st.ready then (st, "bad-state") else (st, showOut (getitemM castF32 scale st.toRec (.pair a b)))
+    | _, _ => (st, "bad-op")
+  | ["itemi", l] =>         -- sr[(i, j, k, …)] : a tuple of Python ints of any length
+    match intList? l with
+    | some l => if !st.ready then (st, "bad-state") else (st, showOut (getitemM castF32 scale st.toRec (.intTuple l)))
     | none => (st, "bad-op")
   | ["rs", a, b, c] =>
     match int? a, int? b with
